@@ -87,6 +87,13 @@ def gen_string(rng, idx, canary_dir):
     marker = f'MK{idx:05d}'
     n = rng.randrange(0, 12)
     body = ''.join(rng.choice(ALPHA) for _ in range(n))
+    if rng.random() < 0.25:
+        # fragments with a meaning of their own somewhere on the way to the class text: template placeholders, format fields,
+        # characters outside the BMP (a JSON-style escape would split them), BOM, line separators
+        frag = rng.choice(['{titles}', '{sheets_size}', '{functions}', '{0}', '{name}', '%(x)s', '\U0001F680', '\U0001D518', '\ufeff', '\u2028', '\u0085',
+                           '\\u0041', '\\N{BULLET}'])
+        cut = rng.randrange(0, len(body) + 1)
+        body = body[:cut] + frag + body[cut:]
     payload = None
     k = rng.random()
     canary = os.path.join(canary_dir, f'CANARY_{idx}')
